@@ -190,6 +190,22 @@ def check_case(ctx, case):
                         probs.append(('violation', 'smooth-option-asymmetric', ''))
                 except Exception as e:
                     probs.append(('violation', 'smooth-option-exception', '%s: %s' % (type(e).__name__, str(e)[:120])))
+        # purely external inputs with a caller-supplied gradient (documented `grad` argument of cov_Obs): J1 Sigma J2^T
+        grng = np.random.default_rng(case['seed'] + 11)
+        Sg = np.array([[0.04, 0.01, 0.0], [0.01, 0.09, -0.02], [0.0, -0.02, 0.16]])
+        g1, g2 = grng.normal(size=3), grng.normal(size=3)
+        try:
+            e1 = pe.cov_Obs([0.3, 0.6, 0.9], Sg, 'cvg', grad=list(g1))[0]
+            e2 = pe.cov_Obs([0.3, 0.6, 0.9], Sg, 'cvg', grad=np.array(g2))[1]
+            e3 = 2.0 * e1 - e2
+            [x.gamma_method() for x in (e1, e2, e3)]
+            ce = pe.covariance([e1, e2, e3])
+            J = np.array([g1, g2, 2 * g1 - g2])
+            ref_e = J @ Sg @ J.T
+            if np.max(np.abs(ce - ref_e)) > 1e-10 * np.max(np.abs(ref_e)):
+                probs.append(('violation', 'external-inputs-with-gradient', 'covariance of cov_Obs(..., grad=g) is not J Sigma J^T: %r vs %r' % (ce.tolist()[0], ref_e.tolist()[0])))
+        except Exception as e:
+            probs.append(('violation', 'external-inputs-with-gradient-exception', '%s: %s' % (type(e).__name__, str(e)[:120])))
         # sort_corr: key list, block sizes and the insertion order of the dictionary are independent
         srng = __import__('random').Random(case['seed'] + 7)
         nk = srng.randint(1, min(4, n))
